@@ -289,6 +289,31 @@ func g05Pac(repo string, w *Out) error {
 		return fmt.Errorf("parseProxy: strconv.ParseUint(port, 10, 16) is called but its error does not fail the entry")
 	}
 	w.DefBool("parse_proxy_validates_port", validates)
+	// host validation: `if host == "" || strings.ContainsFunc(host, isBlankOrControl) { return noProxy, <err> }`
+	// with isBlankOrControl(r) = r <= ' ' || r == 0x7f
+	validatesHost := false
+	for _, st := range stm {
+		is, ok := st.(*ast.IfStmt)
+		if !ok || is.Init != nil {
+			continue
+		}
+		c := f.Src(is.Cond)
+		if !regexp.MustCompile(`\bhost\b`).MatchString(c) {
+			continue
+		}
+		if c != `host == "" || strings.ContainsFunc(host, isBlankOrControl)` || !returnsNonNilLast(f, is.Body.List) {
+			return fmt.Errorf("parseProxy: host test `if %s` is not a shape the model knows", c)
+		}
+		bc, err := f.Func("isBlankOrControl")
+		if err != nil {
+			return err
+		}
+		if f.Src(bc.Body) != "{ return r <= ' ' || r == 0x7f }" {
+			return fmt.Errorf("isBlankOrControl: body %s is not the shape the model knows", f.Src(bc.Body))
+		}
+		validatesHost = true
+	}
+	w.DefBool("parse_proxy_validates_host", validatesHost)
 	// the final composite literal must take Host and Port from SplitHostPort's results
 	last := f.Src(stm[len(stm)-1])
 	if !regexp.MustCompile(`^return Proxy\{ ?Mode: parseMode\(\w+\), Host: host, Port: port,? ?\}, nil$`).MatchString(last) ||
